@@ -41,6 +41,12 @@ def make_span(spec):
         if n >= 4:
             items[n // 2] = items[n // 2 - 1]
         return items
+    if ty == 'np_dup':
+        # a NumPy array span in which one label occurs twice (positions 1 and n - 2); first and last labels are unique
+        items = [f'p{o + i}' for i in range(n)]
+        if n >= 5:
+            items[n - 2] = items[1]
+        return np.array(items)
     if ty == 'list_dup':
         # a whole cycle of labels repeated, like quarters over several years: only positions identify a period
         return [f'q{i % 4}' for i in range(n)]
@@ -85,6 +91,13 @@ def absent_label(spec, variant=0, span=None):
     """A label that is not in the span. variant 0: far away; 1: a near miss of an existing label (same type family:
     x + 0.5 for numbers, label + 'z' for strings); 2: the right spelling in the wrong type ('3' for 3, 0 for 'p0')."""
     ty = spec['type']
+    if variant == 3:
+        # a label of a kind the span's own lookup may refuse outright (still simply "not in the span")
+        if ty == 'pd_datetime':
+            import datetime
+
+            return datetime.timedelta(days=1)
+        return (2000, 1)
     if variant and span is not None and len(span):
         first = span[min(1, len(span) - 1)]
         if isinstance(first, np.generic):
